@@ -34,6 +34,11 @@ def gen(seed, tier, index):
     g = G(seed, "C15", profile="mproc"); r = g.r
     nproc = 2 if r.random() < 0.65 else 3
     io = (index % 2 == 1)
+    if index % 6 == 4:
+        # the SQLite object store between processes, at CALL granularity (every interleaving is a sequential history over the shared database; each simulated
+        # process has its own SQLite connection, locks are arbitrated by the VFS stub). File-operation granularity is left to the file store: a thread parked
+        # inside libsqlite3 holds real mutexes of that library, which the scheduler does not own
+        g.knobs["conf"] = dict(g.knobs.get("conf", {})); g.knobs["conf"]["objectstore.backend"] = "db"; io = False
     g.knobs["policy"] = "io" if io else "call"
     g.knobs["switch_p"] = r.choice([0.05, 0.1, 0.2, 0.35, 0.5]) if io else r.choice([0.3, 0.5, 0.8])
     g.knobs["short_io"] = False
